@@ -12,6 +12,7 @@ import (
 	"encoding/binary"
 	"encoding/hex"
 	"encoding/json"
+	"fmt"
 	"hash"
 	"io"
 	"net"
@@ -125,14 +126,22 @@ type session struct {
 	closedBy string // receiver | sender | harness
 	rc, sc   net.Conn
 	lastAct  atomic.Int64 // unix nano of last forwarded frame
+
+	// half-open simulation (same-id re-handshake family): the reader side is closed,
+	// the writer side is left open and whatever the writer still sends is discarded
+	blackholed atomic.Bool
+	discarded  atomic.Int64
 }
 
-func (s *session) markClosed(by string) {
+// markClosed records who ended the connection first; true if this call was the first.
+func (s *session) markClosed(by string) bool {
 	s.mu.Lock()
+	defer s.mu.Unlock()
 	if s.closedBy == "" {
 		s.closedBy = by
+		return true
 	}
-	s.mu.Unlock()
+	return false
 }
 
 func (s *session) ClosedBy() string {
@@ -152,6 +161,14 @@ type proxy struct {
 	sessions []*session
 	stopping atomic.Bool
 	wg       sync.WaitGroup
+
+	ev atomic.Pointer[func(string)] // optional: ordered event trace of the case (accepts, first close of a connection)
+}
+
+func (p *proxy) event(format string, a ...any) {
+	if f := p.ev.Load(); f != nil {
+		(*f)(fmt.Sprintf(format, a...))
+	}
 }
 
 func newProxy(upstream string, rec *recorder, adv *adversary, tp *tap) (*proxy, error) {
@@ -189,6 +206,7 @@ func (p *proxy) acceptLoop() {
 		s.Idx = len(p.sessions)
 		p.sessions = append(p.sessions, s)
 		p.mu.Unlock()
+		p.event("proxy: reader opened connection #%d", s.Idx)
 		p.wg.Add(2)
 		go p.up(s)
 		go p.down(s)
@@ -199,8 +217,13 @@ func (p *proxy) closer(s *session, by string) {
 	if p.stopping.Load() {
 		by = "harness"
 	}
-	s.markClosed(by)
+	if s.markClosed(by) {
+		p.event("proxy: connection #%d ended first by the %s side", s.Idx, by)
+	}
 	s.rc.Close()
+	if s.blackholed.Load() && by != "sender" {
+		return // half-open: the writer keeps its end until it closes it itself (or the harness does)
+	}
 	s.sc.Close()
 }
 
@@ -233,6 +256,10 @@ func (p *proxy) down(s *session) {
 			p.closer(s, "sender")
 			return
 		}
+		if s.blackholed.Load() {
+			s.discarded.Add(1) // the reader is gone; the writer's frames vanish
+			continue
+		}
 		var outs []chunk
 		if first {
 			first = false
@@ -260,6 +287,9 @@ func (p *proxy) down(s *session) {
 			s.mu.Unlock()
 			_ = s.rc.SetWriteDeadline(time.Now().Add(10 * time.Second))
 			if _, err := s.rc.Write(c.Raw); err != nil {
+				if s.blackholed.Load() {
+					break // keep draining the writer side
+				}
 				p.closer(s, "receiver")
 				return
 			}
@@ -267,6 +297,30 @@ func (p *proxy) down(s *session) {
 		}
 	}
 }
+
+// blackholeCurrent turns the newest open connection of this proxy into a
+// half-open one: the reader's end is closed (the reader notices a dead link, as it
+// would after a read timeout), the writer's end stays open and nothing tells the
+// writer. The session is returned so that the caller can close the writer's end
+// later (closeUpstream) or never.
+func (p *proxy) blackholeCurrent() *session {
+	ss := p.Sessions()
+	if len(ss) == 0 {
+		return nil
+	}
+	s := ss[len(ss)-1]
+	if s.ClosedBy() != "" {
+		return nil
+	}
+	s.blackholed.Store(true)
+	s.markClosed("harness")
+	s.rc.Close()
+	return s
+}
+
+// closeUpstream closes the writer's end of a blackholed session (the peer finally
+// going away: RST / FIN reaching the writer).
+func (p *proxy) closeUpstream(s *session) { s.sc.Close() }
 
 func (p *proxy) Sessions() []*session {
 	p.mu.Lock()
